@@ -40,12 +40,12 @@ def run_case(desc, ctx):
     rng = rng_for(desc["seed"], 2, desc["i"])
     out = {"violations": [], "counters": {}, "evals": 0, "nontrivial": []}
     c = out["counters"]
-    model = str(rng.choice(["plain", "plain", "plain", "huge", "inf", "f32"]))
+    model = str(rng.choice(["plain", "plain", "mut", "huge", "inf", "f32"]))
     cheap = desc["i"] % 3 != 0
-    kinds = G.CHEAP + ["XGBoost"] if (cheap or model != "plain") else None
+    kinds = G.CHEAP + ["XGBoost"] if (cheap or model not in ("plain", "mut")) else None
     cfg = CG.gen_config(rng, kinds=kinds, model=model, max_bs=4, n_samplers=int(rng.integers(1, 6)),
-                        loss_kinds=["minkowski", "minkowski", "msm", "fourier"] if model != "plain" else None)
-    if model != "plain" and rng.random() < 0.7:  # make sure a history reader meets the extreme losses
+                        loss_kinds=["minkowski", "minkowski", "msm", "fourier"] if model not in ("plain", "mut") else None)
+    if model not in ("plain", "mut") and rng.random() < 0.7:  # make sure a history reader meets the extreme losses
         cfg["lineup"].append(G.gen_sampler_desc(rng, str(rng.choice(["XGBoost", "BestBatch", "ParticleSwarm"])), batch_size=1))
     calls = [int(x) for x in rng.integers(1, 4, size=int(rng.integers(1, 5)))]
     n_jobs = 2 if desc["i"] % 8 == 5 else 1
@@ -84,7 +84,9 @@ def run_case(desc, ctx):
     out["evals"] = 1
     if len(calls) > 1:
         c["multi_call_runs"] = 1
-    if model != "plain":
+    if model == "mut":
+        c["models_mutating_their_argument"] = 1
+    elif model != "plain":
         c["extreme_runs"] = 1
     batches = [b for b in mon.batches()]
     completed = [b for b in batches if b[4] is not None][: int(cal.current_batch_index)]
